@@ -134,10 +134,8 @@ def run(ctx, anchors=None):
                 unknown = True
     ctx.inst(nosign, "R09.2", "reject-missing-sign", parser.loc(), "an entry without + or - reaches exit(1)")
     ctx.inst(unknown, "R09.2", "reject-unknown-name", parser.loc(), "an unknown flag name (lookup returned 0) reaches exit(1)")
-    mains = [f for f in fb.funcs.values() if f.d.get("main") and f.file == "btcdeb.cpp"]
-    if not mains:
-        raise AnalysisBroken("btcdeb main not found")
-    main = mains[0]
+    from . import common
+    main = common.func_calling(fb, "btcdeb.cpp", "setup_environment")
     fdecl = [d for n in main.nodes() if n["k"] == "decl" for d in n["decls"] if d["n"] == "flags"]
     ok_init = bool(fdecl) and fdecl[0].get("init") is not None and astq.estr(fdecl[0]["init"]) == A["standard"]
     ctx.inst(ok_init, "R09.2", "starts-from-standard", main.loc(), "`flags` in main starts as STANDARD_SCRIPT_VERIFY_FLAGS")
@@ -221,7 +219,8 @@ def run(ctx, anchors=None):
                 # F4: the P2SH continuation (adds a script). The flag-off path ends the script with the
                 # conditional-balance check; the flag-on path must apply it too before continuing.
                 then = par["then"]
-                sw = [x for x in walk(then) if (x["k"] == "opcall" and x["op"] == "=" and any(p[1:] == ("script",) for p in astq.paths(x["args"][0], astq.aliases(f))))]
+                from . import common
+                sw = [x for x in common.script_switches(prog, f) if S.contains(then, x)]
                 if not sw:
                     muts = [m for m in purity.mutations(prog, f, [then]) if "p2shstack" not in m[1]]
                     ctx.inst(not muts, "R09.3", "p2sh-bookkeeping@%s" % f.name, f.loc(n),
